@@ -13,7 +13,11 @@ uint32_t nondet_u32(void) {
 void nondet_fill(uint8_t* p, uint64_t n) { for (uint64_t i = 0; i < n; i++) { uint8_t __draw = nondet_uchar(); p[i] = __draw; } }
 void vassert(uint32_t c, uint32_t id) { __CPROVER_assert(c, "vassert:dynamic"); }
 void vassume(uint32_t c) { __CPROVER_assume(c); }
+#ifdef VERIF_NOWITNESS
+void vwitness(uint32_t id) { }
+#else
 void vwitness(uint32_t id) { __CPROVER_assert(0, "vwitness:dynamic"); }
+#endif
 void vrec(uint32_t a, uint32_t b) { }
 
 /* byte-wise helpers with their own loop ids (vmem_equal.0 / vmem_copy.0) so that their bound can be set independently */
